@@ -41,6 +41,10 @@ type TxSpec struct {
 type Universe struct {
 	Name string   `json:"name"`
 	Txs  []TxSpec `json:"txs"`
+	// Tag, if set, is appended to every failure signature raised in this
+	// universe (used for shapes with a recorded known finding, so that the
+	// finding cannot mask failures of ordinary shapes).
+	Tag string `json:"tag,omitempty"`
 }
 
 func (u *Universe) String() string {
